@@ -134,7 +134,8 @@ package keeper
 // argsum(F, p) is the sum of the values passed for parameter p over the calls of F made so far.
 
 //@ func (k Keeper).AllocateTip(ctx, addr, queryId, amount, height) (err)
-//@ requires [stake_record_well_formed] has(reporter.Report, pair(queryId, pair(addr, height))) ==> reporter.Report[pair(queryId, pair(addr, height))].Total > 0 && forall j in [0, len(reporter.Report[pair(queryId, pair(addr, height))].TokenOrigins)) :: reporter.Report[pair(queryId, pair(addr, height))].TokenOrigins[j] != nil
+//@ requires [stake_record_well_formed] has(reporter.Report, pair(queryId, pair(addr, height))) ==> reporter.Report[pair(queryId, pair(addr, height))].Total > 0 && forall j in [0, len(reporter.Report[pair(queryId, pair(addr, height))].TokenOrigins)) :: reporter.Report[pair(queryId, pair(addr, height))].TokenOrigins[j] != nil && reporter.Report[pair(queryId, pair(addr, height))].TokenOrigins[j].Amount >= 0
+//@ requires [amount_non_negative_and_commission_a_percentage] amount >= 0 && 0 <= reporter.Reporters[bytes(addr)].CommissionRate && reporter.Reporters[bytes(addr)].CommissionRate <= 100000000000000000000
 //@ modifies reporter.SelectorTips
 
 //@ func (k Keeper).AllocateRewards(ctx, reports, reward, fromPool) (err)
